@@ -205,6 +205,13 @@ Proof.
   intros E. unfold bw_write. rewrite Nat.add_comm. cbn [Nat.add ws_loop]. now rewrite E, E.
 Qed.
 
+Lemma flush_empty b : b_err b = None -> b_n b = 0 -> bw_flush b = (b, None).
+Proof. unfold bw_flush. now intros -> ->. Qed.
+
+(* from here on bufio's operations are used through the lemmas above only; keeping
+   them folded also keeps the kernel from unrolling WriteString's fuel at Qed time *)
+Opaque bw_write bw_flush ws_loop.
+
 (* ------------------------------------------------------------------ writer.go *)
 
 Lemma on_err_soft h e : soft h = true ->
@@ -317,6 +324,9 @@ Proof.
       * intros r Hr. injection Hr as <-. split; [discriminate|exact Hne].
 Qed.
 
+Lemma repeat_S_concat (x : bytes) k : concat (repeat x (S k)) = x ++ concat (repeat x k).
+Proof. reflexivity. Qed.
+
 Lemma pad_loop_good fo k : forall b W b' a,
   good fo b W -> pad_loop p le k b = (b', a) ->
   good fo b' (W ++ concat (repeat (nines ++ le) k)) /\
@@ -325,8 +335,8 @@ Lemma pad_loop_good fo k : forall b W b' a,
 Proof.
   destruct pol as (_ & _ & _ & _ & _ & _ & S1 & S2 & _).
   induction k as [|k IH]; intros b W b' a G H; cbn [pad_loop] in H.
-  - injection H as <- <-. cbn [repeat concat]. rewrite app_nil_r. split; [exact G|]. split; [|discriminate]. now intros E.
-  - cbn [repeat concat].
+  - injection H as <- <-. change (concat (repeat (nines ++ le) 0)) with (@nil N). rewrite app_nil_r. split; [exact G|]. split; [|discriminate]. now intros E.
+  - rewrite repeat_S_concat.
     destruct (bw_write b nines) as [b1 e1] eqn:E1.
     destruct (write_good _ _ _ _ _ _ G E1) as (G1 & He1 & M1).
     destruct (on_err_soft (p_pad_line p) e1 S1) as [C1|(x & Hx & C1)]; rewrite C1 in H.
@@ -345,7 +355,7 @@ Proof.
         - intros r Hr. injection Hr as <-. split; [discriminate|exact Hne]. }
     destruct (IH _ _ _ _ G2 H) as (G3 & M3 & X3).
     split; [|split; [|exact X3]].
-    + repeat rewrite <- app_assoc in G3. repeat rewrite <- app_assoc. exact G3.
+    + rewrite <- (app_assoc W nines le) in G3. rewrite <- (app_assoc W (nines ++ le)) in G3. exact G3.
     + intros E. destruct (M3 E) as [-> Eb2]. split; [reflexivity|auto].
 Qed.
 
@@ -395,9 +405,8 @@ Proof.
   destruct (flush_good _ _ _ _ _ G1 E2) as (G2 & He & M2 & _). cbn [wr_write wr_flush wr_sink].
   intros Hr. assert (E : b_err b2 = None).
   { destruct Hr as [Hr|Hr]; [|congruence]. destruct (M1 Hr) as [Eb1 Hbuf].
-    unfold bw_flush in E2. rewrite Eb1 in E2.
-    destruct G1 as (_ & _ & Hwf & _). unfold wf in Hwf. rewrite Hbuf in Hwf. unfold blen in Hwf. cbn in Hwf.
-    rewrite Hwf in E2. cbn in E2. injection E2 as <- _. exact Eb1. }
+    destruct G1 as (_ & _ & Hwf & _). unfold wf in Hwf. rewrite Hbuf in Hwf. unfold blen in Hwf. cbn [length N.of_nat] in Hwf.
+    rewrite (flush_empty b1 Eb1 Hwf) in E2. injection E2 as <- _. exact Eb1. }
   destruct (M2 E) as [Hbuf _]. destruct G2 as (_ & _ & _ & H4 & _). destruct (H4 E) as [HW Ht].
   rewrite Hbuf, app_nil_r in HW. now split.
 Qed.
@@ -421,3 +430,88 @@ Proof.
 Qed.
 
 End Writer.
+
+(* ------------------------------------------------------------------ reader.go *)
+
+Lemma read_full_spec : forall chunks need acc pre rest filled,
+  read_full need chunks acc = (pre, rest, filled) ->
+  pre ++ concat rest = acc ++ concat chunks /\
+  filled = (need <=? blen (concat chunks)) /\
+  (filled = false -> rest = []).
+Proof.
+  induction chunks as [|c cs IH]; intros need acc pre rest filled H; cbn [read_full] in H.
+  - destruct (need =? 0) eqn:En; injection H as <- <- <-; cbn [concat]; rewrite ?app_nil_r.
+    + apply N.eqb_eq in En. subst need. split; [reflexivity|]. split; [|discriminate]. symmetry. apply N.leb_le. lia.
+    + apply N.eqb_neq in En. split; [reflexivity|]. split; [|reflexivity]. unfold blen. cbn [length]. symmetry. apply N.leb_gt. lia.
+  - destruct (need =? 0) eqn:En.
+    + injection H as <- <- <-. apply N.eqb_eq in En. subst need. split; [reflexivity|]. split; [|discriminate].
+      symmetry. apply N.leb_le. lia.
+    + apply N.eqb_neq in En. cbn [concat]. rewrite blen_app. destruct (blen c <=? need) eqn:Ec.
+      * apply N.leb_le in Ec. destruct (IH _ _ _ _ _ H) as (H1 & H2 & H3).
+        split; [now rewrite H1, <- app_assoc|]. split; [|exact H3].
+        rewrite H2. destruct (need - blen c <=? blen (concat cs)) eqn:E1.
+        -- apply N.leb_le in E1. symmetry. apply N.leb_le. lia.
+        -- apply N.leb_gt in E1. symmetry. apply N.leb_gt. lia.
+      * apply N.leb_gt in Ec. injection H as <- <- <-. cbn [concat]. split; [|split; [|discriminate]].
+        -- rewrite <- app_assoc. f_equal. rewrite app_assoc. now rewrite firstn_skipn.
+        -- symmetry. apply N.leb_le. lia.
+Qed.
+
+(* complete description of what Read reports, for every chunking of the source *)
+Theorem reader_run_spec p chunks t : rpolicy_ok p = true ->
+  reader_run p (mksrc chunks t) =
+  let d := concat chunks in
+  match t with
+  | TEOF => RParsed d
+  | TErr RInj => if preview_size <=? blen d then RScanErr RInj else RCtorErr
+  | TErr RUnexpectedEOF => if preview_size <=? blen d then RScanErr RUnexpectedEOF else RParsed d
+  end.
+Proof.
+  intros Hp. unfold rpolicy_ok in Hp.
+  destruct (r_ctor p) eqn:Ec; try discriminate. destruct (r_scan p) eqn:Es; try discriminate.
+  unfold reader_run. cbn [src_chunks src_term].
+  destruct (read_full preview_size chunks []) as [[pre rest] filled] eqn:Er.
+  destruct (read_full_spec _ _ _ _ _ _ Er) as (H1 & H2 & H3). cbn [app] in H1. rewrite <- H2.
+  destruct filled.
+  - rewrite Es, H1. now destruct t as [|[|]].
+  - rewrite (H3 eq_refl) in H1. cbn [concat] in H1. rewrite app_nil_r in H1. subst pre. rewrite Ec.
+    now destruct t as [|[|]].
+Qed.
+
+Lemma concat_chop : forall fuel c l, concat (chop fuel c l) = l.
+Proof.
+  induction fuel as [|f IH]; intros c l; cbn [chop].
+  - destruct l; cbn; [reflexivity|now rewrite app_nil_r].
+  - destruct l as [|x l]; [reflexivity|]. cbn [concat]. rewrite IH. apply firstn_skipn.
+Qed.
+
+Lemma concat_chunked c l : concat (chunked c l) = l.
+Proof.
+  unfold chunked. destruct c; [|apply concat_chop].
+  destruct l; cbn; [reflexivity|now rewrite app_nil_r].
+Qed.
+
+(* C16, reader side: a source that yields text[:k] (in any pieces) and then fails with
+   an error other than io.EOF / io.ErrUnexpectedEOF never produces a parsed file *)
+Theorem reader_detects p text k c : rpolicy_ok p = true ->
+  reader_run p (failing_source text k c RInj) = RCtorErr \/
+  reader_run p (failing_source text k c RInj) = RScanErr RInj.
+Proof.
+  intros Hp. unfold failing_source. rewrite (reader_run_spec p _ _ Hp). cbn zeta.
+  destruct (preview_size <=? _); [now right|now left].
+Qed.
+
+(* what is parsed when no I/O error surfaces is the complete input *)
+Theorem reader_complete p text c : rpolicy_ok p = true ->
+  reader_run p (healthy_source text c) = RParsed text.
+Proof.
+  intros Hp. unfold healthy_source. rewrite (reader_run_spec p _ _ Hp). cbn zeta. now rewrite concat_chunked.
+Qed.
+
+(* io.ErrUnexpectedEOF: surfaced after the preview, swallowed inside it *)
+Theorem reader_unexpected_eof p text k c : rpolicy_ok p = true ->
+  reader_run p (failing_source text k c RUnexpectedEOF) =
+  if preview_size <=? blen (firstn k text) then RScanErr RUnexpectedEOF else RParsed (firstn k text).
+Proof.
+  intros Hp. unfold failing_source. rewrite (reader_run_spec p _ _ Hp). cbn zeta. now rewrite concat_chunked.
+Qed.
